@@ -25,6 +25,7 @@ type Cfg struct {
 	AllStrings        bool   // WithStringValues unmarshallers (path/form/header): leaf fields only, every document value is a string
 	EnvPrefix         string // unique prefix for env var names of this shape
 	NoDep             bool   // no optional=dep
+	PtrContainers     bool   // about half of the slice / map members are held by pointer (*[]T, *map[string]T): acceptance of valid documents is then not asserted
 	NoDurationOptions bool   // no options= on Duration fields (a Duration travels through encoding/json as integer nanoseconds)
 	NoUntagged        bool   // no untagged / foreign-tagged fields
 	NoStringOnString  bool   // no ,string on string-kind fields (encoding/json renders those differently)
@@ -450,6 +451,9 @@ func (c *Cfg) genField(r *rand.Rand, depth int, sibOptional []string) *Field {
 		if !f.O.HasDefault && r.Intn(4) == 0 {
 			f.O.Optional = true
 		}
+		if c.PtrContainers && r.Intn(2) == 0 {
+			f.T = PtrTo(f.T)
+		}
 	case x < 84: // map
 		switch y := r.Intn(20); {
 		case y < 9:
@@ -477,6 +481,9 @@ func (c *Cfg) genField(r *rand.Rand, depth int, sibOptional []string) *Field {
 			}
 		}
 		f.O.Optional = r.Intn(3) == 0
+		if c.PtrContainers && r.Intn(2) == 0 {
+			f.T = PtrTo(f.T)
+		}
 	case x < 93: // nested struct
 		st := c.genStruct(r, depth+1, 1+r.Intn(3))
 		if r.Intn(3) == 0 {
